@@ -97,7 +97,23 @@ func genBase(r *kit.Rng) string {
 	if len(d) < 3 {
 		d += "xx"
 	}
+	if r.Intn(6) == 0 {
+		d = lengthen(r, d)
+	}
 	return d
+}
+
+// lengthen: long denominations (the bank module accepts up to 128 characters), e.g. tokenfactory / pool share names
+func lengthen(r *kit.Rng, d string) string {
+	target := 90 + r.Intn(39)
+	d = kit.Pick(r, []string{"factory/cosmos1qyqszqgpqyqszqgpqyqszqgpqyqszqgpjnp7du/", "gamm/pool/", "u"}) + d
+	for len(d) < target {
+		d += kit.Pick(r, []string{"/share", "-lp", "x", "/7", ".v2", "_a"})
+	}
+	if len(d) > 128 {
+		d = d[:128]
+	}
+	return strings.TrimRight(d, "/")
 }
 
 // TestC33: every base denomination the origin accepts for transfer can travel A→B and come back over the same
@@ -144,6 +160,12 @@ func TestC33(t *testing.T) {
 					base := genBase(r)
 					if r.Intn(3) == 0 {
 						base = kit.Pick(r, []string{"uatom", "stk", "foo"})
+					}
+					if j%3 == 2 && len(base) < 90 {
+						base = lengthen(r, base)
+					}
+					if len(base) >= 90 {
+						c.Inc("routes_with_long_denomination")
 					}
 					if sdk.ValidateDenom(base) != nil {
 						c.Inc("bank_rejects_denom")
@@ -287,7 +309,8 @@ func (s *Sim) routeTrip(c *kit.Check, r *kit.Rng, base string, amt int64, hops i
 		next := (cur + 1) % 3
 		var cands []*Lane
 		for _, l := range s.Lanes {
-			if l.side(cur) >= 0 && l.side(next) >= 0 {
+			if l.side(cur) >= 0 && l.side(next) >= 0 && (l.Kind == "v1" || !strings.Contains(base, "/")) {
+				// IBC v2 payloads refuse '/' in the base denomination at the sender: such bases travel over v1 channels
 				cands = append(cands, l)
 			}
 		}
@@ -300,6 +323,9 @@ func (s *Sim) routeTrip(c *kit.Check, r *kit.Rng, base string, amt int64, hops i
 		if o == nil || !o.OK() || len(s.Pkts) == before {
 			// an onward leg that the holder's chain refuses (e.g. '/' in the base over an IBC v2 lane) is outside the statement
 			c.Inc("route_onward_leg_rejected")
+			if o != nil && len(c.Samples) < 12 {
+				c.Sample(map[string]any{"onward_leg_rejected": clip(o.Log, 200), "base": base, "hop": h + 1, "lane": lane.Kind})
+			}
 			c.Eval("")
 			break
 		}
